@@ -6,7 +6,7 @@ ID = "C17"
 ML = "mC17"
 HARNESS = "harness/C17.c"
 SRCS = None
-EXTRA_LD = ["-Wl,--wrap=ppoll", "-Wl,--wrap=gettimeofday"]
+EXTRA_LD = ["-Wl,--wrap=ppoll", "-Wl,--wrap=gettimeofday", "-Wl,--wrap=read"]
 LEVEL = "proof"
 CASE_TIMEOUT = 0.02
 RULE = ("case = callback table + script over the real toplevel instance (default event loop, mock terminal) under a "
